@@ -35,7 +35,7 @@ ScenX == {Merge(One(l1, L("wrapErrors", v)), One(l2, L("wrapErrorsUsing", "v.tes
            \cup {Merge(One(l2, L("wrapErrorsUsing", "v.test/b/wx")), One(l1, L("wrapErrors", v))) : l1 \in Levels, l2 \in Levels, v \in {"", "yes", "no"}}
 
 \* V: one line (level, key, value text) -- misplaced, unknown, missing or malformed values
-ValTexts == {"", "yes", "no", "maybe", "yes no", "X", "(", "@bogus", "@error", "X Y Z", ".", "A.B", "A | F", " yes", "yes ", "*",
+ValTexts == {"", "yes", "no", "YES", "No", "maybe", "yes no", "X", "(", "@bogus", "@error", "X Y Z", ".", "A.B", "A | F", " yes", "yes ", "*",
              "Nick", "Inner", "PI", "Nick.X", "A | Fixed", "A A | ToA", "Inner.C A", "PI.C A", "NewT"}
 AllKeys == CommonKeys \cup ConvOnly \cup MethOnly \cup {"foo", "", "Map", "wraperrors", "goverter:map", "enum:", ":"}
 OwnLines == {L("map", "A | Fixed"), L("map", "B | Fixed"), L("map", "B A | ToA"), L("map", "A | ToA"), L("ignore", "A"), L("autoMap", "Nick"), L("default", "NewT2")}
